@@ -8,6 +8,25 @@ from common.framework import Failure, ImplError, Stream
 from props import _spec
 
 ID = 'C10'
+
+
+def _impl_error(out):
+    """impl() as a whole failed: a time-out is not the property's subject (skip-and-tag), anything else is reported"""
+    if 'imeout' in str(out.get('error')):
+        return []
+    return [Failure('raises:' + out['error'], out['msg'])]
+
+
+def _guarded(holds):
+    """a crash of the instance check itself (harness bug, unexpected but legal output container) is never a property violation"""
+    def wrapped(self, case, out):
+        try:
+            return holds(self, case, out)
+        except Exception as ex:  # noqa
+            return [Failure('instance-check-crashed', repr(ex), literal=False)]
+    wrapped.__name__ = holds.__name__
+    return wrapped
+
 LEAN_MODULES = ['Proofs.C10']
 REQUIRED = ['C10.digitize_spec', 'C10.digitize_out_of_range', 'C10.exactly_one_bin', 'C10.hht_dense_eq_spec',
             'C10.hht_sparse_in_shape', 'C10.hht_sparse_one_per_sample', 'C10.hht_sparse_eq_dense', 'C10.hht1d_eq_spec', 'C10.hht_marginal', 'C10.hht_total',
@@ -20,16 +39,23 @@ TRUSTED = ['np.digitize / scipy.sparse.coo_matrix(...).toarray() are modelled by
            'exactness: amplitudes are small integers / short dyadics, so every float sum is exact and compared with ==']
 ASSUMPTIONS = ['edges_weakly_increasing: the theorems assume the edge vector is non-decreasing; validated on every edge vector produced '
                'by define_hist_bins / define_hist_bins_from_data in the run (instance kinds assumption:edges-not-increasing, bins:not-increasing)',
-               'amplitudes are finite (NaN amplitudes are skipped by hilberthuang_1d but propagate in hilberthuang; outside the property)']
+               'amplitudes are finite (NaN amplitudes are skipped by hilberthuang_1d but propagate in hilberthuang; outside the property)',
+               'outside the quantifier, not judged literally: NaN frequencies and vector inputs when a call raises (tagged), mismatched shapes / '
+               'zero bins / zero samples (stream hht_malformed: any error counts as rejected, literal=False), how bin sets are constructed '
+               '(stream bins, literal=False), side effects on the caller\'s arrays (input-modified:*, literal=False; their effect on later spectra is '
+               'judged literally), assumption:edges-not-increasing (literal=False); refused inputs are compared as "both refuse", never by class']
 RULE = ('exhaustive: every assignment of the edge-hitting alphabet {below, negative, each edge exactly, each bin interior, above, NaN} '
         'to k = T*M samples (k <= 3 quick, <= 4 thorough; amplitudes 1,2,4,8 so every subset sum is distinct) x linear and log edge sets '
         'with 1..3 (quick) / 1..4 (thorough) bins from the real define_hist_bins x {energy, amplitude} x {dense, sparse, 1-D}; '
         'random: T <= 60, M <= 6, 1..12 bins, linear/log/from-data edges, frequencies drawn from the alphabet, the floats adjacent to the '
         'outer edges and uniform values, integer or dyadic amplitudes of either sign, vector inputs; malformed: mismatched shapes, '
-        'non-monotone / empty / single edge vectors. Every input is evaluated as ONE SEQUENCE OF CALLS ON THE SAME ARRAY OBJECTS: '
-        'dense, sparse and 1-D in one of the 6 possible orders (drawn per case), then dense and sparse again; each result is compared '
-        'with the model and with the brute-force histogram of a pristine copy, and the arrays handed in are compared with the pristine copy '
-        'after every call. Non-trivial: the input has at least one in-range and one out-of-range-or-edge sample; distinct by content hash.')
+        'non-monotone / empty / single edge vectors; hht_dtypes: frequency arrays stored as float32 / int64 / int32 (values exactly '
+        'representable; the float32 roundings of every edge and their neighbours, integers around every edge; float64 edges with half-integer '
+        'or non-dyadic steps). Every input is evaluated as ONE SEQUENCE OF CALLS ON THE SAME ARRAY OBJECTS: '
+        'dense, sparse and 1-D in one of the 6 possible orders (drawn per case), then a dense call in the OTHER mode, then dense and sparse '
+        'again; each result is compared with the model and with the brute-force histogram of a pristine copy, every returned object is kept '
+        'and read once more after the whole sequence (a spectrum the caller holds must not change when another one is computed), and the '
+        'arrays handed in are compared with the pristine copy after every call (mechanism level). Non-trivial: the input has at least one in-range and one out-of-range-or-edge sample; distinct by content hash.')
 
 
 def _edge_sets(tier):
@@ -90,16 +116,23 @@ class Exhaustive(Stream):
 
     def compare(self, case, out, results):
         if isinstance(out, ImplError):
+            if 'imeout' in str(out.get('error')):
+                return 'skip:run time is not the property\'s subject'
             return 'implementation raised %s' % out['error']
+        skip = None
         for i, ((combo, e, F, A), o) in enumerate(zip(self._inputs(case), out)):
-            d = _spec.hht_compare(o, results[2 * i:2 * i + 2])
+            d = _spec.hht_compare(o, results[2 * i:2 * i + 2], outside=any(v is None for row in F for v in row))
+            if d and d.startswith('skip:'):
+                skip = d
+                continue
             if d:
                 return 'freqs=%s amps=%s edges=%s mode=%s: %s' % (F, A, [float(v) for v in e], case['mode'], d)
-        return None
+        return skip
 
+    @_guarded
     def holds(self, case, out):
         if isinstance(out, ImplError):
-            return [Failure('raises:' + out['error'], out['msg'])]
+            return _impl_error(out)
         fs = {}
         for (combo, e, F, A), o in zip(self._inputs(case), out):
             for f in _spec.hht_holds(F, A, e, case['mode'], o):
@@ -110,8 +143,11 @@ class Exhaustive(Stream):
         return list(fs.values())
 
     def tags(self, case, out):
-        return ['shape=%dx%d' % (case['T'], case['M']), 'mode=' + case['mode'],
-                'nbins=%d' % case['edges']['n'], 'scale=' + case['edges']['scale']]
+        t = ['shape=%dx%d' % (case['T'], case['M']), 'mode=' + case['mode'],
+             'nbins=%d' % case['edges']['n'], 'scale=' + case['edges']['scale']]
+        if isinstance(out, ImplError) and 'imeout' in str(out.get('error')):
+            t.append('timeout-not-judged')
+        return t
 
     def nontrivial(self, case, out):
         return True
@@ -213,25 +249,37 @@ class Single(Stream):
         return np.ndim(case['F']) == 2
 
     def impl(self, case):
-        return _spec.run_hht(case['F'], case['A'], self._edges(case), case['mode'], do_1d=self._do1d(case), seq=case.get('seq', 0))
+        return _spec.run_hht(case['F'], case['A'], self._edges(case), case['mode'], do_1d=self._do1d(case), seq=case.get('seq', 0),
+                             fdtype=case.get('dtype'))
 
     def ops(self, case, out):
         return _spec.hht_ops(case['F'], case['A'], self._edges(case), case['mode'], do_1d=self._do1d(case))
 
     def compare(self, case, out, results):
         if isinstance(out, ImplError):
+            if 'imeout' in str(out.get('error')):
+                return 'skip:run time is not the property\'s subject'
             return 'implementation raised %s' % out['error']
-        return _spec.hht_compare(out, results, do_1d=self._do1d(case))
+        Fa = _spec.arr(case['F'])
+        return _spec.hht_compare(out, results, do_1d=self._do1d(case), outside=_spec.hht_outside_quantifier(Fa.ndim, Fa))
 
+    @_guarded
     def holds(self, case, out):
         if isinstance(out, ImplError):
-            return [Failure('raises:' + out['error'], out['msg'])]
+            return _impl_error(out)
         return _spec.hht_holds(case['F'], case['A'], self._edges(case), case['mode'], out, do_1d=self._do1d(case))
 
     def tags(self, case, out):
         t = _spec.hht_tags(case['F'], self._edges(case), case['mode'])
         if not isinstance(out, ImplError):
             t.append('calls=' + '>'.join(out.get('order', [])[:3]))
+            Fa = _spec.arr(case['F'])
+            if _spec.hht_outside_quantifier(Fa.ndim, Fa) and any('error' in out.get(k, {}) for k in out.get('order', [])):
+                t.append('error-on-nan-or-vector-input-not-judged')
+        elif 'imeout' in str(out.get('error')):
+            t.append('timeout-not-judged')
+        if case.get('dtype'):
+            t.append('dtype=' + case['dtype'])
         t.append('edges=' + (case['edges'].get('src', 'explicit') if 'explicit' in case['edges'] else case['edges'].get('scale', '?')
                              + ('-from-data' if case['edges'].get('from_data') else '')))
         return t
@@ -253,6 +301,69 @@ class Single(Stream):
         if n and isinstance(F[0], list) and len(F[0]) > 1:
             for j in range(len(F[0])):
                 yield dict(case, F=[[r[j]] for r in F], A=[[r[j]] for r in A])
+
+
+class Dtypes(Single):
+    """Frequency arrays stored in a dtype other than float64 (single precision, whole-Hz integers): "all frequency/amplitude
+    arrays". The values are exactly representable in the dtype, so the model and the brute-force histogram see the very
+    same real numbers; the bin edges stay the float64 edges the caller supplies (round-3 change C10/1 rounded the EDGES to
+    the dtype of the frequencies: a sample equal to the float32 rounding of an edge, or an integer sample between a
+    truncated edge and the true one, lands in a bin whose interval does not contain it)."""
+    name = 'hht_dtypes'
+
+    def corpus(self):
+        lin = {'lo': 0.0, 'hi': 1.0, 'n': 10, 'scale': 'linear'}
+        half = {'lo': 0.0, 'hi': 12.5, 'n': 5, 'scale': 'linear'}
+        f32 = lambda v: float(np.float32(v))  # noqa
+        return [
+            # integer frequency 2 with edges 0, 2.5, 5: bin 0 (edges truncated to 0, 2, 5 would say bin 1)
+            {'F': [[2.0]], 'A': [[3.0]], 'edges': {'explicit': [0.0, 2.5, 5.0]}, 'mode': 'amplitude', 'dtype': 'int64', 'seq': 0},
+            {'F': [[2.0, 7.0, 12.0], [-1.0, 0.0, 13.0], [5.0, 10.0, 3.0]], 'A': [[1.0, 2.0, 3.0], [4.0, 5.0, 6.0], [7.0, 8.0, 9.0]],
+             'edges': half, 'mode': 'energy', 'dtype': 'int32', 'seq': 2},
+            # single-precision roundings of the edges 0.1 .. 0.9: every one that rounds DOWN lies below its edge
+            {'F': [[f32(0.1 * k)] for k in range(11)], 'A': [[float(k + 1)] for k in range(11)], 'edges': lin, 'mode': 'amplitude',
+             'dtype': 'float32', 'seq': 1},
+            {'F': [[f32(0.7), f32(0.3)], [f32(-0.5), f32(1.0)]], 'A': [[2.0, 3.0], [5.0, 7.0]], 'edges': lin, 'mode': 'energy',
+             'dtype': 'float32', 'seq': 5},
+        ]
+
+    def generate(self, rng, tier):
+        for _ in range(700 if tier == 'thorough' else 90):
+            dt = rng.choice(['float32', 'float32', 'int64', 'int32'])
+            nb = rng.choice([1, 2, 3, 5, 10])
+            integer = dt.startswith('int')
+            if rng.random() < 0.25:
+                lo = rng.choice([0.5, 0.1, 1.0, 2.5])
+                es = {'lo': lo, 'hi': lo * rng.choice([4.0, 10.0, 80.0]), 'n': nb, 'scale': 'log'}
+            elif integer:
+                lo = rng.choice([0.0, 0.5, 2.5, 1.0, -2.5])
+                es = {'lo': lo, 'hi': lo + nb * rng.choice([0.5, 0.75, 1.0, 1.5, 2.5]), 'n': nb, 'scale': 'linear'}
+            else:
+                lo = rng.choice([0.0, 0.1, 1.0, rng.uniform(0, 5)])
+                es = {'lo': lo, 'hi': lo + rng.choice([1.0, 0.6, 0.7 * nb, rng.uniform(0.1, 20)]), 'n': nb, 'scale': 'linear'}
+            e = [float(v) for v in _spec.make_edges(es)]
+            lo, hi = e[0], e[-1]
+            span = (hi - lo) or 1.0
+            if integer:
+                near = sorted({int(np.floor(v)) + d for v in e for d in (-1, 0, 1, 2)})
+                alpha = [float(v) for v in near] + [float(int(np.floor(lo)) - 3), float(int(np.ceil(hi)) + 3), -1.0, 0.0]
+                draw = lambda: float(rng.randint(int(np.floor(lo - 0.3 * span)) - 1, int(np.ceil(hi + 0.3 * span)) + 1))  # noqa
+            else:
+                alpha = []
+                for v in e:
+                    r = np.float32(v)
+                    alpha += [float(r), float(np.nextafter(r, np.float32(-np.inf))), float(np.nextafter(r, np.float32(np.inf)))]
+                alpha += [float(np.float32((a + b) / 2)) for a, b in zip(e, e[1:])]
+                alpha += [float(np.float32(lo - span / 4)), float(np.float32(hi + span / 4)), float(np.float32(-abs(hi) - 1.0))]
+                draw = lambda: float(np.float32(rng.uniform(lo - 0.3 * span, hi + 0.3 * span)))  # noqa
+            T, M = rng.choice([1, 2, 3, 5, 8, 12]), rng.choice([1, 2, 3])
+            p = rng.choice([0.5, 0.8, 1.0])
+            F = [[rng.choice(alpha) if rng.random() < p else draw() for _ in range(M)] for _ in range(T)]
+            if rng.random() < 0.5:
+                A = [[float(rng.randint(0, 9)) for _ in range(M)] for _ in range(T)]
+            else:
+                A = [[rng.randint(-64, 64) / 8.0 for _ in range(M)] for _ in range(T)]
+            yield {'F': F, 'A': A, 'edges': es, 'mode': rng.choice(_spec.MODES), 'dtype': dt, 'seq': rng.randrange(6)}
 
 
 class Malformed(Stream):
@@ -313,29 +424,36 @@ class Malformed(Stream):
 
     def compare(self, case, out, results):
         if isinstance(out, ImplError):
+            if 'imeout' in str(out.get('error')) or case['why'] != 'ok':
+                return 'skip:time-out / input outside the quantifier'
             return 'implementation raised %s' % out['error']
-        return _spec.hht_compare(out, results, do_1d=self._same_shape(case))
+        return _spec.hht_compare(out, results, do_1d=self._same_shape(case), outside=case['why'] != 'ok')
 
+    @_guarded
     def holds(self, case, out):
+        # Nothing in this stream is in the property's quantifier (mismatched shapes, zero bins, zero samples): the property
+        # does not say that such inputs are rejected, nor how. These checks are mechanism-level (literal=False) and accept
+        # ANY error as "rejected"; only the well-formed 'ok' cases are judged literally.
         if isinstance(out, ImplError):
-            return [Failure('raises:' + out['error'], out['msg'])]
+            return _impl_error(out) if case['why'] == 'ok' else _spec.nonliteral(_impl_error(out))
         why = case['why']
-        fs = [] if why == 'ok' else _spec.modified_failures(out)     # (hht_holds reports them for 'ok')
+        fs = [] if why == 'ok' else _spec.nonliteral(_spec.modified_failures(out))     # (hht_holds reports them for 'ok')
         if why in ('rows-differ', 'cols-differ', 'vector-vs-matrix'):
             for nm in ('dense', 'sparse'):
-                if out[nm].get('error') != 'ValueError':
+                if 'error' not in out[nm]:
                     fs.append(Failure('mismatched-shapes-not-rejected:' + nm,
-                                      'shapes %s vs %s: %s' % (np.shape(case['F']), np.shape(case['A']), out[nm].get('error', 'returned a value'))))
+                                      'shapes %s vs %s: returned a value' % (np.shape(case['F']), np.shape(case['A'])), literal=False))
         elif why == 'ok' or why == 'single-edge':
             if why == 'single-edge' and 'error' not in out['dense']:
                 # zero bins: the only correct spectrum is empty
                 if out['dense']['shape'][0] != 0 or out['dense']['v']:
-                    fs.append(Failure('single-edge-nonempty', str(out['dense'])))
+                    fs.append(Failure('single-edge-nonempty', str(out['dense']), literal=False))
             elif why == 'ok':
                 fs += _spec.hht_holds(case['F'], case['A'], case['e'], case['mode'], out)
         elif why == 'no-samples':
-            if out['dense'].get('shape') != [len(case['e']) - 1, 0] or out['oned'].get('v') != [0.0] * (2 * (len(case['e']) - 1)):
-                fs.append(Failure('no-samples-not-empty', str(out)[:300]))
+            if 'error' not in out['dense'] and 'error' not in out.get('oned', {}) and (
+                    out['dense'].get('shape') != [len(case['e']) - 1, 0] or out['oned'].get('v') != [0.0] * (2 * (len(case['e']) - 1))):
+                fs.append(Failure('no-samples-not-empty', str(out)[:300], literal=False))
         return fs
 
     def tags(self, case, out):
@@ -406,9 +524,12 @@ class Bins(Stream):
             return 'automatic bin count %d vs model %s (n=%d)' % (out['auto_nbins'], r.raw, case['ndata'])
         return None
 
+    @_guarded
     def holds(self, case, out):
+        # The statement says nothing about HOW bin sets are constructed (they are only the configuration space of the
+        # property): every kind of this stream is mechanism-level (literal=False), end points within 1e-9 relative.
         if isinstance(out, ImplError):
-            return [Failure('raises:' + out['error'], out['msg'])]
+            return _spec.nonliteral(_impl_error(out))
         fs = []
         e = out['edges']
         if len(e) != case['n'] + 1 or len(out['centres']) != case['n']:
@@ -417,9 +538,8 @@ class Bins(Stream):
             fs.append(Failure('bins:not-increasing', str(e)))
         if case['hi'] > case['lo'] and case['scale'] == 'linear' and any(a >= b for a, b in zip(e, e[1:])) and case['n'] < 1000:
             fs.append(Failure('bins:not-strictly-increasing', str(e)))
-        if case['scale'] == 'linear' and (e[0] != case['lo'] or e[-1] != case['hi']):
-            fs.append(Failure('bins:endpoints', '%r..%r for [%r, %r]' % (e[0], e[-1], case['lo'], case['hi'])))
-        if case['scale'] == 'log' and (abs(e[0] - case['lo']) > 1e-9 * case['lo'] or abs(e[-1] - case['hi']) > 1e-9 * case['hi']):
+        rtol = 1e-9 * max(abs(case['lo']), abs(case['hi']), 1e-300)
+        if abs(e[0] - case['lo']) > rtol or abs(e[-1] - case['hi']) > rtol:
             fs.append(Failure('bins:endpoints', '%r..%r for [%r, %r]' % (e[0], e[-1], case['lo'], case['hi'])))
         e2 = out['edges_from_data']
         tol = 1e-9 * max(1.0, abs(out['xmax']))
@@ -427,10 +547,10 @@ class Bins(Stream):
             fs.append(Failure('bins:from-data-range', 'edges %s for data range [%r, %r]' % (e2, out['xmin'], out['xmax'])))
         if out['auto_nbins'] != int(np.floor(np.sqrt(case['ndata']))):
             fs.append(Failure('bins:auto-count', '%d bins for %d samples' % (out['auto_nbins'], case['ndata'])))
-        return fs
+        return _spec.nonliteral(fs)
 
     def tags(self, case, out):
         return ['scale=' + case['scale'], 'nbins=%d' % case['n'], 'degenerate' if case['hi'] == case['lo'] else 'proper']
 
 
-STREAMS = [Exhaustive(), Single(), Malformed(), Bins()]
+STREAMS = [Exhaustive(), Single(), Dtypes(), Malformed(), Bins()]
